@@ -3,6 +3,7 @@ package gen
 import (
 	"encoding/json"
 	"math/rand"
+	"strings"
 
 	"verif/harness/internal/opb"
 	"verif/harness/internal/proto"
@@ -229,7 +230,18 @@ func genC03(r *rand.Rand, n int, emit func(string)) {
 		mod := deepCopy(req).(map[string]interface{})
 		sd := mod["suffixData"].(map[string]interface{})
 		dl := mod["delta"].(map[string]interface{})
-		switch r.Intn(6) {
+		switch r.Intn(7) {
+		case 6:
+			const al = "ABCDEFGHIJKLMNOPQRSTUVWXYZabcdefghijklmnopqrstuvwxyz0123456789-_"
+			h := sd["deltaHash"].(string)
+			if r.Intn(2) == 0 {
+				k := r.Intn(len(h))
+				sd["deltaHash"] = h[:k] + "\n" + h[k:]
+			} else {
+				last := strings.IndexByte(al, h[len(h)-1])
+				sd["deltaHash"] = h[:len(h)-1] + string(al[last^(1+r.Intn(3))])
+			}
+			mk(opb.Canon(mod), "create/delta-hash-lenient-sibling")
 		case 0:
 			sd["recoveryCommitment"] = opb.NewKey(r, opb.P256).Commitment(code)
 			mk(opb.Canon(mod), "create/other-recovery-commitment")
